@@ -23,7 +23,7 @@ def sh(cmd, **kw):
 
 
 def clean():
-    sh("git checkout -- . ; git clean -fdq -e seed1 -e seed2 -e seed3 -e target")
+    sh("git checkout -- . ; git clean -fdq -e seed1 -e seed2 -e seed3 -e target -e TASK.md")
 
 
 res = {"property": pid, "seed": k}
@@ -46,7 +46,12 @@ sh("git apply %s/patch.diff" % sd)
 rc, o = sh("cargo test --workspace --no-fail-fast --offline 2>&1 | grep -E '^test result|FAILED|error' | head", timeout=3000)
 res["suite_with_patch"] = o.strip().splitlines()[:4]
 res["suite_passes"] = "35 passed; 0 failed" in o
+if "--allfeat" in sys.argv:
+    rc, o = sh("cargo test --all-features --offline 2>&1 | grep -E '^test result|FAILED|^error' | head", timeout=3000)
+    res["all_features_suite"] = o.strip().splitlines()[:4]
+    res["all_features_suite_passes"] = "224 passed; 0 failed" in o and "FAILED" not in o and "error" not in o
 clean()
+sh("git clean -fdq -e seed1 -e seed2 -e seed3 -e target -e TASK.md tests")
 os.makedirs(out, exist_ok=True)
 for fn in ("patch.diff", "demo.diff", "demo.sh", "meta.json"):
     shutil.copy(os.path.join(sd, fn), os.path.join(out, fn))
